@@ -174,3 +174,136 @@ Theorem C03_verbose0_loses_value_changes :
   length (text_view 1 (fst (run_diff inj_hash (fun _ _ => []) one_block (fun _ => false) (fun _ => false) (mkCfg true 0 1 true) (VAtom (AInt 1)) (VAtom (AInt 2))))) = 1.
 Proof. exact DiffVerbose.verbose0_loses_value_changes. Qed.
 Print Assumptions C03_verbose0_loses_value_changes.
+
+(* ---- the EXACT positional result with DeepDiff's run-wide table (Diff/DiffMemoSpec.v), no alias guard ----
+   With the table the positional result is, as a multiset, the recursive definition in which set members are compared
+   as TABLE KEYS ([keq]: Python == with bools kept apart from numbers - how self.hashes is keyed) instead of by type
+   and value ([spec_k]); for ALL well-formed inputs with tag-safe set members (K1), every injective hasher ... *)
+From DD Require Diff.DiffMemoSpec.
+
+Theorem C03_positional_with_table_is_spec_k :
+  forall H o udiff ops excl d ip t1 t2,
+    (forall s t, H s = H t -> s = t) -> Hash.HashModel.plain o = true ->
+    wf t1 = true -> wf t2 = true ->
+    inputs_ok any_atom Hash.HashModel.tag_safe_atom t1 = true ->
+    inputs_ok any_atom Hash.HashModel.tag_safe_atom t2 = true ->
+    Permutation.Permutation
+      (text_view 2 (fst (fst (DiffMemo.run_diff_m H o udiff ops (fun _ => false) excl (mkCfg true 0 d ip) t1 t2))))
+      (DiffMemoSpec.spec_k udiff ip t1 t2).
+Proof. intros. apply DiffMemoSpec.run_diff_m_positional_is_spec_k; assumption. Qed.
+Print Assumptions C03_positional_with_table_is_spec_k.
+
+(* ... and it IS the recursive definition exactly when no set pair that the positional traversal compares holds a
+   cross-side pair that is equal as a table key without being identical ([sets_all ip no_cross]: 1 vs 1.0, not True vs 1):
+   the alias guard of C03_positional_is_spec_with_table made local and necessary *)
+Theorem C03_positional_with_table_is_spec_iff :
+  forall H o udiff ops excl d ip t1 t2,
+    (forall s t, H s = H t -> s = t) -> Hash.HashModel.plain o = true ->
+    wf t1 = true -> wf t2 = true ->
+    inputs_ok any_atom Hash.HashModel.tag_safe_atom t1 = true ->
+    inputs_ok any_atom Hash.HashModel.tag_safe_atom t2 = true ->
+    (Permutation.Permutation
+       (text_view 2 (fst (fst (DiffMemo.run_diff_m H o udiff ops (fun _ => false) excl (mkCfg true 0 d ip) t1 t2))))
+       (spec_diff udiff ip t1 t2)
+     <-> DiffMemoSpec.sets_all ip DiffMemoSpec.no_cross t1 t2 = true).
+Proof. intros. apply DiffMemoSpec.run_diff_m_positional_is_spec_iff; assumption. Qed.
+Print Assumptions C03_positional_with_table_is_spec_iff.
+
+(* [spec_k] is [spec_diff] with another membership test (the common generalisation is [spec_mem]) *)
+Theorem C03_spec_k_is_the_definition_with_key_membership :
+  forall udiff ip, DiffMemoSpec.spec_mem udiff ip member = spec udiff ip.
+Proof. exact DiffMemoSpec.spec_mem_member. Qed.
+Print Assumptions C03_spec_k_is_the_definition_with_key_membership.
+
+(* K2 again, now as "spec_k <> spec_diff": {1,'a'} vs {1.0,'a'} with the real table behaviour *)
+Theorem C03_spec_k_differs_on_K2 :
+  wf k2_t1 = true /\ wf k2_t2 = true /\
+  DiffMemoSpec.sets_all true DiffMemoSpec.no_cross k2_t1 k2_t2 = false /\
+  text_view 2 (fst (fst (DiffMemo.run_diff_m Hash.HashModel.hexhash Hash.HashModel.default_opts (fun _ _ => []) one_block (fun _ => false) (fun _ => false) (mkCfg true 0 1 true) k2_t1 k2_t2))) = [] /\
+  DiffMemoSpec.spec_k (fun _ _ => []) true k2_t1 k2_t2 = [] /\
+  length (spec_diff (fun _ _ => []) true k2_t1 k2_t2) = 2.
+Proof.
+  destruct DiffMemoSpec.spec_k_differs_from_spec_k2 as (W1 & W2 & _ & _ & A & R & K & S).
+  refine (conj W1 (conj W2 (conj A (conj R (conj K _))))). rewrite S. reflexivity.
+Qed.
+Print Assumptions C03_spec_k_differs_on_K2.
+
+(* ---- datetimes, dates, times, timedeltas, Decimals (outside C03's stated universe): the extended universe
+   Diff/XuValue.v, model Diff/XuModel.v, definition Diff/XuSpec.v (the scalar rule for the new atoms: values_changed
+   iff not ==, old / new value = the two objects; [xrepr] / [xstr] = Python's repr / str of such objects, oracles).
+   The statement of C03 holds there under one more guard: every datetime LEAF is already aware-UTC ([dt_utc]) ... *)
+From DD Require Diff.XuValue Diff.XuTree Diff.XuModel Diff.XuTextView Diff.XuSpec Diff.XuEmpty Diff.XuSpecProofs.
+
+Theorem C03x_positional_is_spec_partial :
+  forall xrepr xstr hatom udiff ops excl d ip (t1 t2 : XuValue.value),
+    (forall a b, hatom a = hatom b -> a = b) ->
+    XuValue.wf t1 = true -> XuValue.wf t2 = true ->
+    XuEmpty.inputs_ok XuEmpty.any_atom XuEmpty.any_atom XuSpecProofs.dt_utc t1 = true ->
+    XuEmpty.inputs_ok XuEmpty.any_atom XuEmpty.any_atom XuSpecProofs.dt_utc t2 = true ->
+    XuTextView.text_view xrepr xstr 2 (fst (XuModel.run_diff hatom udiff ops (fun _ => false) excl (XuModel.mkCfg true 0 d ip) t1 t2))
+    = XuSpec.spec_diff xrepr xstr udiff ip t1 t2.
+Proof. intros. apply XuSpecProofs.positional_run_is_spec; assumption. Qed.
+Print Assumptions C03x_positional_is_spec_partial.
+
+Theorem C03x_positional_no_mutual_rewrite :
+  forall hatom udiff ops skip excl c (t1 t2 : XuValue.value),
+    XuModel.zip c = true -> XuValue.wf t1 = true ->
+    XuModel.mutual (fst (XuModel.diff hatom udiff ops skip excl c t1 t2 [] [])) = fst (XuModel.diff hatom udiff ops skip excl c t1 t2 [] []).
+Proof. intros. apply XuSpecProofs.positional_mutual_id; assumption. Qed.
+Print Assumptions C03x_positional_no_mutual_rewrite.
+
+Theorem C03x_guards_satisfiable :
+  XuValue.wf XuSpecProofs.xs_t1 = true /\ XuValue.wf XuSpecProofs.xs_t2 = true /\
+  XuEmpty.inputs_ok XuEmpty.any_atom XuEmpty.any_atom XuSpecProofs.dt_utc XuSpecProofs.xs_t1 = true /\
+  XuEmpty.inputs_ok XuEmpty.any_atom XuEmpty.any_atom XuSpecProofs.dt_utc XuSpecProofs.xs_t2 = true /\
+  length (XuSpec.spec_diff XuSpecProofs.nostr XuSpecProofs.nostr (fun _ _ => []) true XuSpecProofs.xs_t1 XuSpecProofs.xs_t2) = 5 /\
+  XuTextView.text_view XuSpecProofs.nostr XuSpecProofs.nostr 2
+    (fst (XuModel.run_diff XuEmpty.inj_hash (fun _ _ => []) XuEmpty.one_block (fun _ => false) (fun _ => false) (XuModel.mkCfg true 0 1 true) XuSpecProofs.xs_t1 XuSpecProofs.xs_t2))
+  = XuSpec.spec_diff XuSpecProofs.nostr XuSpecProofs.nostr (fun _ _ => []) true XuSpecProofs.xs_t1 XuSpecProofs.xs_t2.
+Proof. exact XuSpecProofs.positional_guards_satisfiable. Qed.
+Print Assumptions C03x_guards_satisfiable.
+
+(* ... and not without it: (a) the values reported for a changed datetime are the NORMALISED ones (a naive datetime
+   comes back with tzinfo=utc), the definition reports the input's; (b) C02-NAIVE-AWARE: nothing is reported for a naive
+   datetime against the aware UTC one with the same wall clock, the definition reports a values_changed *)
+Theorem C03x_positional_is_spec_refuted_normalised :
+  XuValue.wf XuSpecProofs.nm_t1 = true /\ XuValue.wf XuSpecProofs.nm_t2 = true /\
+  XuTextView.text_view XuSpecProofs.nostr XuSpecProofs.nostr 2
+    (fst (XuModel.run_diff XuEmpty.inj_hash (fun _ _ => []) XuEmpty.one_block (fun _ => false) (fun _ => false) (XuModel.mkCfg true 0 1 true) XuSpecProofs.nm_t1 XuSpecProofs.nm_t2))
+    = [XuTextView.TValue (XuTextView.render XuSpecProofs.nostr [XuValue.PIdx 0])
+         (XuValue.VAtom (XuValue.ADt 1715984134000000 (Some 0%Z))) (XuValue.VAtom (XuValue.ADt 1715984135000000 (Some 0%Z))) None None] /\
+  XuSpec.spec_diff XuSpecProofs.nostr XuSpecProofs.nostr (fun _ _ => []) true XuSpecProofs.nm_t1 XuSpecProofs.nm_t2
+    = [XuTextView.TValue (XuTextView.render XuSpecProofs.nostr [XuValue.PIdx 0])
+         (XuValue.VAtom (XuValue.ADt 1715984134000000 None)) (XuValue.VAtom (XuValue.ADt 1715984135000000 None)) None None].
+Proof. exact XuSpecProofs.positional_is_spec_refuted_normalised. Qed.
+Print Assumptions C03x_positional_is_spec_refuted_normalised.
+
+Theorem C03x_positional_is_spec_refuted_naive_aware :
+  XuTextView.text_view XuSpecProofs.nostr XuSpecProofs.nostr 2
+    (fst (XuModel.run_diff XuEmpty.inj_hash (fun _ _ => []) XuEmpty.one_block (fun _ => false) (fun _ => false) (XuModel.mkCfg true 0 1 true)
+            (XuValue.VList [XuValue.VAtom XuEmpty.na_naive]) (XuValue.VList [XuValue.VAtom XuEmpty.na_aware]))) = [] /\
+  length (XuSpec.spec_diff XuSpecProofs.nostr XuSpecProofs.nostr (fun _ _ => []) true
+            (XuValue.VList [XuValue.VAtom XuEmpty.na_naive]) (XuValue.VList [XuValue.VAtom XuEmpty.na_aware])) = 1.
+Proof. exact XuSpecProofs.positional_is_spec_refuted_naive_aware. Qed.
+Print Assumptions C03x_positional_is_spec_refuted_naive_aware.
+
+(* the extended model and definition restricted to the values of Base/Value.v are the old ones (Diff/XuEmbed.v):
+   text view of the run and recursive definition commute with the embedding, for every printer oracle *)
+From DD Require Diff.XuEmbed.
+
+Theorem C03x_models_agree_text :
+  forall xrepr xstr hatom udiff ops skip excl c hatomX opsX skipX exclX,
+    (forall a, hatomX (XuEmbed.emb_atom a) = hatom a) ->
+    (forall p xs ys, opsX (XuEmbed.emb_path p) (map XuEmbed.emb xs) (map XuEmbed.emb ys) = map XuEmbed.emb_op (ops p xs ys)) ->
+    (forall p, skipX (XuEmbed.emb_path p) = skip p) -> (forall p, exclX (XuEmbed.emb_path p) = excl p) ->
+    forall v t1 t2,
+      XuTextView.text_view xrepr xstr v (fst (XuModel.run_diff hatomX udiff opsX skipX exclX (XuEmbed.emb_cfg c) (XuEmbed.emb t1) (XuEmbed.emb t2))) =
+      map XuEmbed.emb_tentry (text_view v (fst (run_diff hatom udiff ops skip excl c t1 t2))).
+Proof. exact XuEmbed.models_agree_text_run. Qed.
+Print Assumptions C03x_models_agree_text.
+
+Theorem C03x_specs_agree :
+  forall xrepr xstr udiff ip t1 t2,
+    XuSpec.spec_diff xrepr xstr udiff ip (XuEmbed.emb t1) (XuEmbed.emb t2) = map XuEmbed.emb_tentry (spec_diff udiff ip t1 t2).
+Proof. exact XuEmbed.models_agree_spec_diff. Qed.
+Print Assumptions C03x_specs_agree.
